@@ -23,7 +23,9 @@
    <state> = rd_block rd_file rd_num wr_block wr_file wr_flush hash(rd buffer) hash(wr buffer), or "-" without hook.
    X lines: the model-independent oracle -- the bytes a read or a stack GET hit returned differ from the
    authoritative bytes (pread of the file overlaid with the pending dirty write block):
-     X R|K <fi> <address> <len> <first differing index> <returned-hex> <authoritative-hex> */
+     X R|K <fi> <address> <len> <first differing index> <returned-hex> <authoritative-hex>
+     (a probe of a deleted node's old id was tried and dropped: on the UNCHANGED library cgio_get_label on such an id
+      runs ADFI_stridx_c over the unterminated 246-byte header buffer -- ASan stack-buffer-overflow, C13 territory) */
 #include <stdio.h>
 #include <stdlib.h>
 #include <string.h>
